@@ -157,7 +157,7 @@ func ruleKnownDbIsConnectionDb(w *core.World, r *core.Report, c *senderCtx) {
 			}
 			relied++
 			key := p.Resolve(lk.Index)
-			ia := c.queueElem(key, "Db")
+			ia := queueElemOnPath(c, p, key, "Db")
 			if ia == nil {
 				// a database the sender tracks itself: every origin must be a received item's label
 				okAll, n := true, 0
@@ -192,7 +192,7 @@ func ruleKnownDbIsConnectionDb(w *core.World, r *core.Report, c *senderCtx) {
 						x = y
 						op = map[token.Token]token.Token{token.EQL: token.EQL, token.NEQ: token.NEQ, token.LSS: token.GTR, token.GTR: token.LSS, token.LEQ: token.GEQ, token.GEQ: token.LEQ}[op]
 					}
-					ia2 := c.queueElem(x, "Db")
+					ia2 := queueElemOnPath(c, p, x, "Db")
 					if ia2 == nil || !sameElem(ia, ia2) {
 						continue
 					}
@@ -224,6 +224,68 @@ func ruleKnownDbIsConnectionDb(w *core.World, r *core.Report, c *senderCtx) {
 		return
 	}
 	r.Check(bad == "", cons, badPos, "%s", bad)
+}
+
+// queueElemOnPath is senderCtx.queueElem, also through the parameter of a helper the path stepped into: `field`
+// of a by-value record parameter is that field of the queue element the path handed over.
+func queueElemOnPath(c *senderCtx, p *core.Path, v ssa.Value, field string) *ssa.IndexAddr {
+	if ia := c.queueElem(v, field); ia != nil {
+		return ia
+	}
+	var base ssa.Value
+	switch x := core.Unwrap(v).(type) {
+	case *ssa.Field:
+		if core.FieldName(x) != field {
+			return nil
+		}
+		base = x.X
+	case *ssa.UnOp:
+		fa, ok := x.X.(*ssa.FieldAddr)
+		if x.Op != token.MUL || !ok || core.FieldName(fa) != field {
+			return nil
+		}
+		base = fa.X
+	default:
+		return nil
+	}
+	if a, isA := base.(*ssa.Alloc); isA { // the parameter's spill
+		sts := core.CellStores(a)
+		if len(sts) != 1 {
+			return nil
+		}
+		base = sts[0].Val
+	}
+	par, isPar := base.(*ssa.Parameter)
+	if !isPar {
+		return nil
+	}
+	arg := p.Resolve(par)
+	if arg == ssa.Value(par) {
+		return nil
+	}
+	for i := 0; i < 4; i++ {
+		switch b := arg.(type) {
+		case *ssa.UnOp:
+			if b.Op != token.MUL {
+				return nil
+			}
+			arg = b.X
+		case *ssa.IndexAddr:
+			if ld, ok := b.X.(*ssa.UnOp); ok && ld.Op == token.MUL && core.Cell(ld.X) == c.queue {
+				return b
+			}
+			return nil
+		case *ssa.Alloc:
+			sts := core.CellStores(b)
+			if len(sts) != 1 {
+				return nil
+			}
+			arg = sts[0].Val
+		default:
+			return nil
+		}
+	}
+	return nil
 }
 
 // putsCheckpointField: s is Put("hset", ..., <checkpoint>.<method>(), ...), method = OffsetKey / RunIdKey.
